@@ -27,7 +27,15 @@ CACHE = os.path.join(VERIF, '.cache')
 EVID = os.path.join(VERIF, 'evidence')
 REPLAY = os.path.join(EVID, 'replay')
 PY = '/venv/bin/python'
-NCPU = int(os.environ.get('VERIF_JOBS', '16'))
+def _jobs():
+    # .cache/jobs (not committed) throttles parallelism while several checks share the machine
+    try:
+        return int(open(os.path.join(CACHE, 'jobs')).read().strip())
+    except Exception:
+        return int(os.environ.get('VERIF_JOBS', '16'))
+
+
+NCPU = _jobs()
 
 # Axioms of the standard library (and primitives) a property theorem may depend
 # on; each one that actually occurs is named in the evidence (trusted_base).
